@@ -248,7 +248,9 @@ def tasks(ctx):
     ts = [LemmaTask("lemma:pixel", pixel_lemma, [P + "renderPixel", P + "findWindowPixel", P + "findBackgroundPixel", P + "readTilePixel", "(*oam.OAM).PPURead"]),
           LemmaTask("lemma:schedule", schedule_lemma, [P + "EndMachineCycle", P + "checkOverlappingSprites"]),
           LemmaTask("lemma:overlaps", overlap_invariant, [P + "EndMachineCycle", P + "checkOverlappingSprite"]),
-          Task(P + "checkOverlappingSprite", P + "checkOverlappingSprite"), Task(P + "readTilePixel", P + "readTilePixel")]
+          Task(P + "checkOverlappingSprite", P + "checkOverlappingSprite"), Task(P + "readTilePixel", P + "readTilePixel"),
+          # the contracts ppu.EndMachineCycle uses the renderer and the OAM scan through (frame, preconditions, crash freedom)
+          Task(P + "renderPixel", P + "renderPixel"), Task(P + "checkOverlappingSprites", P + "checkOverlappingSprites")]
     return filter_tasks(ts)
 
 
